@@ -107,6 +107,16 @@ func extraC10Loops(c *Ctx, r *Report) {
 					if isIndexMutation(in) {
 						mut = true
 					}
+					// the update may live in a package-local helper called from the loop body
+					if cc := getCall(in); cc != nil {
+						if sc := cc.StaticCallee(); sc != nil && sc.Pkg == f.Pkg && sc.Blocks != nil {
+							eachInstr(sc, func(i2 ssa.Instruction) {
+								if isIndexMutation(i2) {
+									mut = true
+								}
+							})
+						}
+					}
 				}
 			}
 			if !mut {
@@ -623,4 +633,71 @@ func constListElems(v ssa.Value) ([]string, bool) {
 		}
 	}
 	return out, len(out) > 0
+}
+
+// ---------- C11-R5: the provider normaliser keeps distinct provider types distinct ----------
+func init() { registerExtra("C11", extraC11Normaliser) }
+
+func extraC11Normaliser(c *Ctx, r *Report) {
+	r.Rule("C11-R5", "the provider-type normaliser (applied both to the provider in the URL and to the configured endpoint type) maps a spelling K to a canonical type R only when K is not a spelling of a different canonical provider type: for every (K → R) case of its table, no ProviderType* constant T ≠ R equals K up to separators. Two provider families are never merged", 1)
+	fn := c.Fn(pkgHandlers, "NormaliseProviderType")
+	if fn == nil {
+		r.Unresolved("C11-R5", "handlers.NormaliseProviderType")
+		return
+	}
+	strip := func(s string) string {
+		return strings.ToLower(strings.NewReplacer("-", "", "_", "", " ", "").Replace(s))
+	}
+	canon := map[string]string{} // stripped → canonical value
+	if p := c.pkgBySuffix("internal/core/constants"); p != nil {
+		sc := p.Pkg.Scope()
+		for _, n := range sc.Names() {
+			if k, ok := sc.Lookup(n).(*types.Const); ok && strings.HasPrefix(n, "ProviderType") && k.Val().Kind().String() == "String" {
+				v := strings.Trim(k.Val().ExactString(), "\"")
+				canon[strip(v)] = v
+			}
+		}
+	}
+	if len(canon) == 0 {
+		r.Unresolved("C11-R5", "constants.ProviderType*")
+		return
+	}
+	n := 0
+	for _, ret := range returnsOf(fn) {
+		res, ok := constString(retResult(ret, 0))
+		if !ok {
+			continue
+		}
+		// a case body is entered from one comparison per listed spelling: read the spelling off each incoming edge
+		var facts []condFact
+		for _, p := range ret.Block().Preds {
+			facts = append(facts, edgeFacts(p, ret.Block())...)
+		}
+		for _, cf := range normFacts(facts) {
+			bo, ok := cf.Cond.(*ssa.BinOp)
+			if !ok || bo.Op != token.EQL || !cf.True {
+				continue
+			}
+			k, isK := constString(bo.Y)
+			if !isK {
+				k, isK = constString(bo.X)
+			}
+			if !isK {
+				continue
+			}
+			n++
+			key := fmt.Sprintf("%s:%q→%q", fname(fn), k, res)
+			if t, isCanon := canon[strip(k)]; isCanon && t != res {
+				r.Bad("C11-R5", key, ret.Pos(), fmt.Sprintf("%q is a spelling of provider type %q but is normalised to %q: requests for one provider are routed to (and list models of) the other provider's endpoints", k, t, res))
+			} else {
+				r.OK("C11-R5", key, ret.Pos(), "alias stays within its provider family")
+			}
+		}
+	}
+	// switch lowered to a chain of comparisons whose returns share one block: fall back to the phi of constants
+	if n == 0 {
+		r.Undecided("C11-R5", fname(fn)+":table", fn.Pos(), "no (spelling → canonical) case found in the normaliser")
+	}
+	addMutants(Mutant{Prop: "C11", Name: "normaliser-merges-vllm-mlx", File: "internal/app/handlers/handler_common.go", Rule: "C11-R5",
+		Old: "		return constants.ProviderTypeLMStudio\n", New: "		return constants.ProviderTypeLMStudio\n	case constants.ProviderPrefixVLLMMLX1, constants.ProviderPrefixVLLMMLX2:\n		return constants.ProviderTypeVLLM\n"})
 }
